@@ -62,6 +62,51 @@ def _l4_fetch_complete(L: int, b: int, F: int, site: int, rs: int, re: int) -> b
     return S.check_fetch_complete(B.blacklisted_binning, L, b, F, site, rs, re) is None
 
 
+def _l3_break(sa: int, ra: bool, sb: int, rb: bool, Fi: int, ci: int, same_cell: bool) -> bool:
+    """
+    pre: 0 <= sa <= 7 and 0 <= sb <= 5
+    pre: 0 <= Fi <= 2 and 0 <= ci <= 2
+    post: _
+    """
+    # Region [900, 1000) with fetch margin F >= read length (16). Molecule A is owned (site in the last 24 bp of the bin), molecule B has its
+    # site at or beyond fetch_end but still overlaps the fetch window; reads arrive in coordinate order through the REAL MoleculeIterator and
+    # the REAL run_tagging_task: A must be written whatever strands / clips / cells (an early stop at B loses A when B's read starts first).
+    from vlib.sym import pick
+    from spec import c06 as S6
+    from stubs.fakeread import FakeRead
+    from singlecellmultiomics.molecule import MoleculeIterator, NlaIIIMolecule
+    from singlecellmultiomics.fragment import NlaIIIFragment
+    start, end = 900, 1000
+    F = pick([16, 20, 40], Fi)
+    fetch_start, fetch_end = start - F, end + F
+    site_a = pick([976, 980, 984, 988, 992, 996, 998, 999], sa)
+    site_b = fetch_end + pick([0, 1, 2, 5, 9, 30], sb)
+    clip = pick([0, 1, 6], ci)
+    from spec.c09 import nla_reads
+    reads = []
+    for name, site, rev, cell, umi in (('A', site_a, ra, 'lib_1', 'AAA'), ('B', site_b, rb, ('lib_1' if same_cell else 'lib_2'), 'CCC')):
+        r, _ = nla_reads(FakeRead, site, clip, rev, 'CATG')
+        r.query_name = name
+        r.set_tag('SM', cell)
+        r.set_tag('RX', umi)
+        reads.append(r)
+    # what a fetch of [fetch_start, fetch_end) returns, in coordinate order
+    fetched = sorted([r for r in reads if r.reference_start < fetch_end and r.reference_end > fetch_start], key=lambda r: r.reference_start)
+
+    class It(MoleculeIterator):
+        def __init__(self, alignments, contig=None, start=None, end=None, progress_callback_function=None, **kw):
+            MoleculeIterator.__init__(self, [[r, None] for r in alignments], molecule_class=NlaIIIMolecule, fragment_class=NlaIIIFragment,
+                                      fragment_class_args={'umi_hamming_distance': 0}, perform_qflag=False, yield_invalid=True, **kw)
+    written = []
+
+    class Out:
+        def write(self, read):
+            written.append(read.query_name)
+    TG.run_tagging_task(fetched, Out(), contig='chr1', start=start, end=end, fetch_start=fetch_start, fetch_end=fetch_end,
+                        molecule_iterator_class=It, molecule_iterator_args={}, read_groups=None, enable_prefetch=False)
+    return written == ['A']
+
+
 def _l5_job(n: int, c0: int, c1: int, c2: int, v0: bool, v1: bool, v2: bool, v3: bool) -> bool:
     """
     pre: 1 <= n <= 3
@@ -79,6 +124,8 @@ LEMMAS = [
                 'thorough': [dict(id='L%d_%d' % (L, M), pre=['L0 == %d' % L, 'L1 == %d' % M]) for L in (1, 2, 3, 4, 5) for M in (1, 2, 3)]}),
     dict(name='L2_ownership_filter', fn='_l2_filter', engine='E1', timeout=_T, replay='replay.C08:replay',
          cases={'quick': [dict(id='n%d' % n, pre=['n == %d' % n]) for n in (0, 1, 2, 3)]}),
+    dict(name='L3_break_criterion', fn='_l3_break', engine='E1', timeout=_T, replay='replay.C08:replay_break',
+         cases={'quick': [dict(id='F%d_c%d' % (f, c), pre=['Fi == %d' % f, 'ci == %d' % c]) for f in range(3) for c in range(3)]}),
     dict(name='L4_fetch_complete', fn='_l4_fetch_complete', engine='E1', timeout=_T, replay='replay.C08:replay',
          cases={'quick': [dict(id='L%d' % L, pre=['L == %d' % L]) for L in (1, 2, 3, 4, 5)],
                 'thorough': [dict(id='L%d' % L, pre=['L == %d' % L]) for L in (1, 2, 3, 4, 5, 6)]}),
@@ -92,7 +139,7 @@ PROPERTY = dict(
                           filter='<=3 molecules in arbitrary iteration order, unbounded sites and windows, molecules without site, 2 contigs',
                           fetch='contig <=5, bin <=6, fragment size / site / read interval symbolic'),
             'thorough': dict(tiling='lengths <=5 / <=3', fetch='contig <=6')},
-    outside=['worker scheduling (results are a multiset union; order-insensitive)', 'htslib merge', 'MatePairIterator ordering of paired-end reads',
+    outside=['worker scheduling (results are a multiset union; order-insensitive)', 'htslib merge', 'MatePairIterator ordering of paired-end reads (the break criterion is checked for single-end reads no longer than the fetch margin)',
              'molecule-level tag equality between serial and parallel run beyond ownership+completeness (argued on paper: the owning job sees every read of the molecule)'],
     assumptions=['stub molecule/iterator classes passed through the public run_tagging_task API', 'float cut: %r' % (_CUTS,),
                  'fragment lies within fragment_size of its site (documented meaning of the margin)'],
